@@ -87,7 +87,7 @@ def build_world(cfg):
     sign = 1.0 if cfg["mode"] == "min" else -1.0
     perms = {int(k): tuple(v) for k, v in cfg["perms"].items()}
     table = table_from_perms(cfg["T"], max_t, perms, sign)
-    spec = dict(W=cfg["W"], T=cfg["T"], R=max_t, table=table, brackets=nb if nb > 1 else 0,
+    spec = dict(W=cfg["W"], T=cfg["T"], R=max_t, table=table, brackets=(nb if nb > 1 else 0) if not cfg.get("free_brackets") else 0,
                 max_resource_attr="epochs" if cfg.get("use_mra") else None,
                 fail_budget=cfg.get("F", 0))
     ref = StoppingRef(levels, max_t, cfg["mode"], nb, cfg["per_bracket"],
